@@ -56,8 +56,7 @@ func (f *fileData) Mode() hackpadfs.FileMode {
 }
 
 func (f *fileData) ModTime() time.Time {
-	var zero time.Time
-	if f.modTimeOverride != zero {
+	if !f.modTimeOverride.IsZero() { // like os.Chtimes: the zero instant, in whatever location, means "leave unchanged"
 		return f.modTimeOverride
 	}
 	return f.runOnceFileRecord.ModTime()
